@@ -102,5 +102,5 @@ def tuples(out: str, tag: str):
                 if depth == 0:
                     break
             k += 1
-        yield re.sub(r'<<\s+', '<<', " ".join(out[j:k + 1].split()))
+        yield re.sub(r'\s+>>', '>>', re.sub(r'<<\s+', '<<', " ".join(out[j:k + 1].split())))  # (TLC wraps long tuples: "<< a,\n b >>")
         i = k + 1
